@@ -162,7 +162,7 @@ def _walk_chain(cj, j, known0):
 def run_function(cj):
     """thread the return joins of spliced helpers in one function JSON (in place); returns the number of threaded edges"""
     n = 0
-    for _ in range(8):
+    for _ in range(400):
         preds = {}
         for i, b in enumerate(cj["blocks"]):
             for s in _succs(b["term"]):
@@ -172,8 +172,9 @@ def run_function(cj):
             if not b.get("inlined_from") or b.get("thread_clone"):
                 continue
             ps = preds.get(j, [])
-            if len(ps) < 2:
+            if not ps:
                 continue
+            # (also a single remaining predecessor is threaded: the switch behind the join is then decided for it too)
             # the result local: what the join block moves into the caller's destination (`dest = move _0'`)
             rets = [s for s in b["stmts"] if s.get("inlined_return")]
             if not rets:
